@@ -7,6 +7,7 @@
 //	local   c.UpdateValue(v)                          the application sets a value
 //	remote  c.UpdateValueFromConnection(v, conn)      a controller writes a value (dummy net.Conn)
 //	get     c.OnValueGet(func() interface{} { return v }); c.GetValueFromConnection(conn)
+//	get-local  the same callback, read by the application itself: c.GetValue()
 //	                                                  the application supplies a value when it is read
 //
 // with the hostile value set of values.go.  After EVERY update the oracle of this file (which knows nothing
@@ -472,6 +473,12 @@ func runSequence(r *vf.Run, sub subject, steps []step) bool {
 			c.OnValueGet(func() interface{} { return v })
 			p, text = vf.Recover(func() { c.GetValueFromConnection(theConn) })
 			c.OnValueGet(nil)
+		case "get-local":
+			// the application's own read (typed getters and GetValue go through the same get callback)
+			r.Count("updates_via_get_callback_read_locally", 1)
+			c.OnValueGet(func() interface{} { return v })
+			p, text = vf.Recover(func() { c.GetValue() })
+			c.OnValueGet(nil)
 		}
 		r.Distinct("input_kind_x_format", st.Val.Kind+"->"+c.Format)
 		r.Distinct("format_exercised", c.Format)
@@ -617,9 +624,9 @@ func run(r *vf.Run, repo string) {
 	}
 	modesFor := func(v *hval) []string {
 		if v.Native {
-			return []string{"local", "get"} // a controller cannot send a Go int8
+			return []string{"local", "get", "get-local"} // a controller cannot send a Go int8
 		}
-		return []string{"local", "remote", "get"}
+		return []string{"local", "remote", "get", "get-local"}
 	}
 
 	// ---- 1. every subject x every value x every mode, once and twice in a row
